@@ -632,8 +632,9 @@ impl DrawExecutor {
     }
 
     fn blit_screen_to_screen(&mut self, _write_mode: i32, from: Position, to: Position, dest: Position) {
-        let width = to.x - from.x;
-        let height = to.y - from.y;
+        let res = self.get_resolution();
+        let width = (to.x - from.x).min(res.width);
+        let height = (to.y - from.y).min(res.height);
 
         for y in 0..height {
             for x in 0..width {
@@ -644,9 +645,9 @@ impl DrawExecutor {
     }
 
     fn blit_memory_to_screen(&mut self, _write_mode: i32, from: Position, to: Position, dest: Position) {
-        let width = to.x - from.x;
-        let height = to.y - from.y;
         let res = self.get_resolution();
+        let width = (to.x - from.x).min(res.width);
+        let height = (to.y - from.y).min(res.height);
 
         for y in 0..height {
             let yp = y + from.y;
@@ -660,13 +661,19 @@ impl DrawExecutor {
                     break;
                 }
                 let offset = (yp * width + xp) as usize;
-                let color = self.screen_memory[offset];
+                let Some(color) = self.screen_memory.get(offset).copied() else {
+                    continue;
+                };
                 self.set_pixel(dest.x + x, dest.y + y, color);
             }
         }
     }
 
     fn blit_screen_to_memory(&mut self, _write_mode: i32, from: Position, to: Position) {
+        // only the part of the region that is on the canvas can be grabbed
+        let res = self.get_resolution();
+        let from = Position::new(from.x.clamp(0, res.width), from.y.clamp(0, res.height));
+        let to = Position::new(to.x.clamp(from.x, res.width), to.y.clamp(from.y, res.height));
         let width = to.x - from.x;
         let height = to.y - from.y;
 
